@@ -265,7 +265,7 @@ def _log_future(rec, fut, oid, requester):
     orig_sr, orig_se, orig_c = fut.set_result, fut.set_exception, fut.cancel
     if requester:
         def set_result(v):
-            rec.eff('fut', oid, True)
+            rec.eff('fut', oid, True, bytes(getattr(v, 'metadata', None) or b''), bytes(getattr(v, 'data', None) or b''))
             return orig_sr(v)
 
         def set_exception(e):
@@ -394,7 +394,8 @@ def coq_effect(e):
             d['d'] = b''
         return 'XEnq %s' % FR.coq_frame(d)
     if k == 'fut':
-        return 'XFut %d%%nat %s' % (e[1], cbool(e[2]))
+        md, d = (e[3], e[4]) if len(e) > 3 else (b'', b'')
+        return 'XFut %d%%nat %s %s %s' % (e[1], cbool(e[2]), cbytes(md), cbytes(d))
     if k == 'cb':
         s = e[2]
         sig = {'subscribe': 'SSubscribe', 'complete': 'SComplete', 'error': 'SError'}.get(s[0]) or \
